@@ -57,11 +57,14 @@ impl ISocketConnection for ScaConnectionIface {
         return Err(ZmqError::ResourceLimitReached);
       }
       Err(TrySendError::Full(returned_fb)) => {
-        let timeout_duration = self.sndtimeo.unwrap_or(Duration::from_secs(30));
-        return match timeout(timeout_duration, self.pipe_sender.send(returned_fb)).await {
-          Ok(Ok(())) => Ok(()),
-          Ok(Err(_)) => Err(ZmqError::ConnectionClosed),
-          Err(_) => Err(ZmqError::ResourceLimitReached),
+        // SNDTIMEO -1 (None) waits until there is room, however long that takes.
+        return match self.sndtimeo {
+          None => self.pipe_sender.send(returned_fb).await.map_err(|_| ZmqError::ConnectionClosed),
+          Some(timeout_duration) => match timeout(timeout_duration, self.pipe_sender.send(returned_fb)).await {
+            Ok(Ok(())) => Ok(()),
+            Ok(Err(_)) => Err(ZmqError::ConnectionClosed),
+            Err(_) => Err(ZmqError::ResourceLimitReached),
+          },
         };
       }
       Err(TrySendError::Sent(_)) => unreachable!(),
@@ -83,11 +86,14 @@ impl ISocketConnection for ScaConnectionIface {
         return Err(ZmqError::ResourceLimitReached);
       }
       Err(TrySendError::Full(returned_msgs)) => {
-        let timeout_duration = self.sndtimeo.unwrap_or(Duration::from_secs(30));
-        return match timeout(timeout_duration, self.pipe_sender.send(returned_msgs)).await {
-          Ok(Ok(())) => Ok(()),
-          Ok(Err(_)) => Err(ZmqError::ConnectionClosed),
-          Err(_) => Err(ZmqError::ResourceLimitReached),
+        // SNDTIMEO -1 (None) waits until there is room, however long that takes.
+        return match self.sndtimeo {
+          None => self.pipe_sender.send(returned_msgs).await.map_err(|_| ZmqError::ConnectionClosed),
+          Some(timeout_duration) => match timeout(timeout_duration, self.pipe_sender.send(returned_msgs)).await {
+            Ok(Ok(())) => Ok(()),
+            Ok(Err(_)) => Err(ZmqError::ConnectionClosed),
+            Err(_) => Err(ZmqError::ResourceLimitReached),
+          },
         };
       }
       Err(TrySendError::Sent(_)) => unreachable!(),
